@@ -9,6 +9,7 @@ ops (see harness/cmd/deadline/main.go):
         obs: buf sb=<SendBy> n=<count> sz=<DataSize> root=<0|1>   |   late reason=<send reason>
   tick <w>                            ext: taken = <ids in the order they reached the transmission>
         obs: at=<now> sent=<id:reason:spans,…> left=<buffered ids>
+  looptick <w> <ns>                   the real collect() loop takes a send tick after idling <ns>; ext/obs as tick
   eject <w> <bytes>                   ext: imp <id> = <CacheImpact>…, age <id> <k> = <size> <lo> <hi>…, order = <ids>
         obs: sent=… left=…
   alloc <delta>                       ext: heap, maxalloc, workers, share <w>, imp <w> <id>, order <w>
@@ -122,6 +123,17 @@ def oStep (o : OSt) (op : List String) (exts : List (List String)) : OSt × Opti
         ({ ws := setAt o.ws w s' }, some (fmtSent s!"at={s.now} " out))
       | none => (o, some "bad-worker")
     | _, _ => (o, some "bad-op")
+  | ["looptick", w, d] =>
+    -- the real collect() loop handles a send tick after an idle period d: `adv d` then `tick w`
+    match w.toNat?, d.toNat?, extIds exts ["taken"] with
+    | some w, some d, some taken =>
+      let ws := o.ws.map fun s => (step s (.adv d)).1
+      match ws[w]? with
+      | some s =>
+        let (s', out) := step s (.tick taken)
+        ({ ws := setAt ws w s' }, some (fmtSent s!"at={s.now} " out))
+      | none => (o, some "bad-worker")
+    | _, _, _ => (o, some "bad-op")
   | ["eject", w, bytes] =>
     match w.toNat?, bytes.toNat?, extIds exts ["order"] with
     | some w, some bytes, some order =>
@@ -350,6 +362,10 @@ def dMon (m : MSt) (op : List String) (exts : List (List String)) (obs : Option 
   | ["tick", w], some o =>
     match w.toNat? with
     | some w => monTick m w o
+    | none => (m, [])
+  | ["looptick", w, d], some o =>
+    match w.toNat? with
+    | some w => monTick { m with now := m.now + (d.toNat?.getD 0 : Nat) } w o
     | none => (m, [])
   | ["eject", w, bytes], some o =>
     match w.toNat?, bytes.toNat? with
